@@ -34,7 +34,7 @@ def run(tier):
     wd = workdir(PID)
     thorough = tier == "thorough"
     lens = "0, 1, 2, 7, 8, 9, 15, 16, 17, 31, 32, 33, 47, 48, 49, 64, 65, 70" if not thorough else ", ".join(str(i) for i in list(range(0, 71)) + [79, 80, 81, 95, 96, 97, 127, 128, 129, 255, 256, 257])
-    mm, mk, cl = (5, 3, "0, 1, 16, 17") if not thorough else (6, 4, "0, 1, 15, 16, 17, 40")
+    mm, mk, cl = (5, 3, "0, 1, 8, 16, 17") if not thorough else (6, 4, "0, 1, 7, 8, 15, 16, 17, 40")
     with open(os.path.join(SPEC, "_mc_c03.cfg"), "w") as f:
         f.write(CFG % (lens, mm, mk, cl))
     r = tlc("MC_Murmur3", "_mc_c03.cfg", workers=8, timeout=3000, xmx="8g")
@@ -60,6 +60,9 @@ def run(tier):
             bad = rows[b + (rej or 1) - 1]
             if bad.get("kind") in ("panic", "error"):
                 v.violation("token computation failed: %s" % bad.get("msg"), [bad])
+            elif bad.get("kind") == "cdchash":
+                v.violation("CDC partitioner's hasher gives a token that is not the first 8 key bytes (minimum token for a shorter key) for a %d-byte key (%d chunkings tried; token le-bytes %s): data=%s" % (
+                    len(bad["data"]), bad["chunkings"], bad["token"], bad["data"][:40]), [bad])
             elif bad.get("kind") == "hash":
                 v.violation("Murmur3 hasher disagrees with the partitioner's token for a %d-byte key (%d chunkings tried; token le-bytes %s): data=%s" % (
                     len(bad["data"]), bad["chunkings"], bad["token"], bad["data"][:40]), [bad])
@@ -67,7 +70,7 @@ def run(tier):
                 v.violation("prepared-statement token / encoded key wrong: markers=%s key component markers (key order)=%s cdc=%s encoded=%s token=%s token through the CachingSession handle=%s" % (
                     bad["markers"], bad["pkidx"], bad["cdc"], bad["encoded"][:40], bad["token"], bad.get("token_cached")), [bad])
             break
-    distinct = len({json.dumps([r_.get("data"), r_.get("pkidx"), r_.get("values"), r_.get("cdc")]) for r_ in rows})
+    distinct = len({json.dumps([r_.get("kind") == "cdchash", r_.get("data"), r_.get("pkidx"), r_.get("values"), r_.get("cdc")]) for r_ in rows})
     v.add(evaluations=summ.get("hasher_runs", 0) + sum(1 for r_ in rows if r_.get("kind") == "pk"),
           distinct_nontrivial=distinct,
           rule="evaluation = one run of the real hasher under one chunking, or one calculate_token+compute_partition_key call; "
